@@ -5,9 +5,14 @@ MCSCAN = "SPECIFICATION Spec\nCONSTANTS\n  MaxZ = %d\n  MaxP = %d\nINVARIANTS Ri
 DCWIN = "SPECIFICATION Spec\nCONSTANTS\n  MaxZ = %d\nINVARIANTS NeverWithoutCubes AtMostOnce AllOnceAtEnd\nPROPERTIES Terminates\nCHECK_DEADLOCK FALSE\n"
 
 
+BLOCKS = ("SPECIFICATION Spec\nCONSTANTS\n  DX = %d\n  DY = %d\n  DZ = %d\n  MaxMinVol = %d\n"
+          "INVARIANTS Positive Disjoint Covers\nPROPERTIES Terminates\nCHECK_DEADLOCK FALSE\n")
+
+
 def run(ctx):
     quick = ctx.tier == "quick"
-    for name, mod, cfg in [("McScan", "pipeline/McScan", MCSCAN % ((8, 4) if quick else (11, 6))),
+    for name, mod, cfg in [("BlockPieces", "pipeline/BlockPieces", BLOCKS % ((3, 2, 2, 2) if quick else (4, 3, 2, 3))),
+                           ("McScan", "pipeline/McScan", MCSCAN % ((8, 4) if quick else (11, 6))),
                            ("DcWindow", "pipeline/DcWindow", DCWIN % (12 if quick else 20))]:
         e = ctx.tlc("E-" + name, mod, cfg, workers=8, timeout=1200)
         if e.invariant or (e.error and "emporal" in e.error):
